@@ -1,4 +1,5 @@
 """C08 — expansion work is bounded by the budget and the alias limits (DESIGN §4 C08)."""
+import re
 from ..mir import MissingAnchor, sym_contains
 from ..rules import render, limit_rule, must_pass, aggregates, bool_switches, last_seg
 from . import C07, C11
@@ -21,9 +22,39 @@ def _deep(f, op):
         return render(f.sym_operand(op))
 
 
+FINISH_CALLERS = {
+    "<read_with_options::ReadIter as std::iter::Iterator>::next", "<read_with_options_valid::ReadValidIter as std::iter::Iterator>::next",
+    "<read_with_options_validate::ReadValidateIter as std::iter::Iterator>::next", "de::with_deserializer::enforce_single_document_and_finish",
+    "from_multiple_with_options", "from_multiple_with_options_valid", "from_multiple_with_options_validate", "from_reader_with_options",
+    "from_reader_with_options_valid", "from_reader_with_options_validate", "from_str_with_options_and_path_recorder", "from_str_with_options_impl",
+}
+
+
+def rule_budget_outlives_reading(ctx, fx, config):
+    """WHO-CALLS:finish — `finish()` takes the budget enforcer out of the event source (`self.budget.take()`): whatever is read
+    afterwards is read without any budget.  It is called by the entry points and iterators when *they* are done (C11 / C10
+    decide on which of their paths), never by a function of the event source itself or a new helper that a caller may use
+    mid-stream.  And nothing else takes the enforcer."""
+    callers = sorted({(fx.fns[f.root].npath if f.kind == "closure" and f.root in fx.fns else f.npath) for f, b in fx.callers.get(LE + "::finish", [])})
+    extra = [c for c in callers if c not in FINISH_CALLERS]
+    ctx.check(not extra, "WHO-CALLS", "C08:WHO-CALLS:finish", "finish() is called by the %d reviewed entry points / iterators only" % len(callers),
+              "finish(), which drops the budget enforcer, is also called by %s: every document read after that call is read without node, event, depth or alias budgets" % extra, config, None)
+    ctx.floor("WHO-CALLS.finish-callers", len(callers), 5, config)
+    takers = set()
+    for f in fx.fns.values():
+        for b, t in f.calls():
+            if last_seg(fx.callee(t)) in ("take", "replace") and t["args"]:
+                with f.deep():
+                    a0 = render(f.sym_operand(t["args"][0]))
+                if re.search(r"self\.budget$", a0) and f.npath.startswith(LE):
+                    takers.add(f.npath)
+    ctx.check(takers <= {LE + "::finish"}, "WHO-CALLS", "C08:WHO-CALLS:budget-taken-only-by-finish", "only finish() takes the enforcer", "the budget enforcer is also taken by %s" % sorted(takers - {LE + "::finish"}), config, None)
+
+
 def run(ctx):
     for config in ctx.configs:
         fx = ctx.facts(config)
+        rule_budget_outlives_reading(ctx, fx, config)
         ni = fx.fn(LE + "::next_impl")
         table = {
             "self.alias_limits.max_total_replayed_events": dict(counter="self.total_replayed_events", variant="AliasReplayLimitExceeded"),
